@@ -66,7 +66,8 @@ func facetEmbed(args []string) error {
 	}
 
 	// 1. exhaustive short strings over the 8-symbol alphabet of the property
-	alpha := []string{"`", "\"", "\\", "\n", "\r", "$", "a", "\uFEFF"}
+	// ("{" and "%": text that a later whole-file pass or a format verb could mistake for its own)
+	alpha := []string{"`", "\"", "\\", "\n", "\r", "$", "a", "\uFEFF", "{", "%"}
 	var gen func(prefix string, n int, f func(string))
 	gen = func(prefix string, n int, f func(string)) {
 		if n == 0 {
